@@ -133,16 +133,16 @@ func init() { register("C02", "exploration", runC02) }
 func runC02(ctx *core.Ctx) {
 	ctx.Rule("all ordered pairs of alphabet P (E[8], multiples of B, torsion+multiples; closed under negation and translation by (0,-1)) x representations (lambda in {1,2,-1,sqrt(-1),generic} x limb forms) for Add/Subtract with a fresh receiver, the receiver aliased to the first and to the second operand; all P x all 8 representations for Negate/MultByCofactor and same-pointer Add/Subtract; compared through Bytes() and ExtendedCoordinates() with the affine addition law. distinct_nontrivial = distinct result points")
 	ctx.Assume("math/big is correct", "points outside alphabet P are not decided")
-	pf := pointIns(ctx.Quick(), formsFor(ctx, 3, 5))
+	pf := pointIns(smoke(ctx), []int{0, 6, 5, 3, 7}[:sz(ctx, 2, 3, 5)])
 	n := len(pf)
 	ops := []string{"Add", "Subtract", "AddRecvP", "SubRecvP", "AddRecvQ", "SubRecvQ"}
 	subC02.Run(ctx, n*n*len(ops), func(i int) ptBinCase {
 		return ptBinCase{ops[i%len(ops)], pf[(i/len(ops))/n], pf[(i/len(ops))%n]}
 	})
-	all := pointIns(ctx.Quick(), []int{0, 1, 2, 3, 4, 5, 6, 7})
+	all := pointIns(smoke(ctx), []int{0, 1, 2, 3, 4, 5, 6, 7})
 	un := []string{"Negate", "MultByCofactor", "AddSelfPtr", "SubSelfPtr", "NegateRecv", "CofactorRecv", "AddAllSame", "SubAllSame"}
 	subC02.Run(ctx, len(all)*len(un), func(i int) ptBinCase { return ptBinCase{un[i%len(un)], all[i/len(un)], all[i/len(un)]} })
-	ctx.Extra("points", len(alpha.Points(ctx.Quick())))
+	ctx.Extra("points", len(alpha.Points(smoke(ctx))))
 }
 
 // ---------------- C06 ----------------
@@ -235,7 +235,7 @@ func init() { register("C06", "exploration", runC06) }
 func runC06(ctx *core.Ctx) {
 	ctx.Rule("all ordered pairs of alphabet P, each side in several projective representations; expected 1 iff same model point; the alphabet contains P, -P, P+(0,-1) and -(P+(0,-1)) so negatives sharing exactly one coordinate occur; both argument orders; v.Equal(v). distinct_nontrivial = distinct hard negatives (sharing one coordinate) + distinct positive (point, form, form) triples")
 	ctx.Assume("math/big is correct")
-	pf := pointIns(ctx.Quick(), formsFor(ctx, 4, 6))
+	pf := pointIns(smoke(ctx), []int{0, 6, 5, 3, 7, 1}[:sz(ctx, 3, 4, 6)])
 	n := len(pf)
 	subC06.Run(ctx, n*n, func(i int) ptBinCase { return ptBinCase{"Equal", pf[i/n], pf[i%n]} })
 	subC06.Run(ctx, n, func(i int) ptBinCase { return ptBinCase{"SelfPtr", pf[i], pf[i]} })
@@ -339,6 +339,12 @@ var subC05 = core.NewSub("C05/encode", func(w *core.Worker, c ptEncCase) *core.F
 	if !bytes.Equal(got, c.P.Enc) {
 		return core.Failf("Bytes() of %s [form %d via %s] = %x", c.P.Enc, c.P.Form, c.Via, got)
 	}
+	// a result already handed out must survive later calls on other points
+	edwards25519.NewGeneratorPoint().Bytes()
+	alpha.MakePoint(ref.Torsion()[1], 3).Bytes()
+	if !bytes.Equal(got, c.P.Enc) {
+		return core.Failf("the slice returned by Bytes() of %s changed to %x after later Bytes() calls", c.P.Enc, got)
+	}
 	// canonical: y < p
 	y := ref.FromLE(got)
 	y.SetBit(y, 255, 0)
@@ -368,7 +374,7 @@ func init() { register("C05", "exploration", runC05) }
 func runC05(ctx *core.Ctx) {
 	ctx.Rule("every point of alphabet P in every injected projective representation (8 forms) and in every operation-produced representation (11 producers: Add, Subtract, Negate, the five scalar multiplications by 1, decode...) -> Bytes() must equal the model encoding byte for byte and round-trip through SetBytes; every accepted string of the C04 decode alphabet (incl. all non-canonical ones) must re-encode canonically (run here on the non-canonical subset). distinct_nontrivial = distinct encodings")
 	ctx.Assume("math/big is correct")
-	all := pointIns(ctx.Quick(), []int{0, 1, 2, 3, 4, 5, 6, 7})
+	all := pointIns(smoke(ctx), []int{0, 1, 2, 3, 4, 5, 6, 7})
 	nv := len(viaForms)
 	subC05.Run(ctx, len(all)*nv, func(i int) ptEncCase { return ptEncCase{all[i/nv], viaForms[i%nv]} })
 	// non-canonical accepted inputs re-encode canonically
